@@ -150,6 +150,41 @@ func dPreprocessStruct() string {
 	return ""
 }
 
+// dPreprocessAbsent: a Preprocess function with a concrete input type below a struct field and a slice element whose input is absent
+// (missing key, null element). nil is not an int: the function is not handed a made-up 0, and a Required node below it is not
+// satisfied by a value nobody sent. Returns (problem about the callback's argument, problem about "no issues").
+func dPreprocessAbsent() (argProblem, successProblem string) {
+	var args []any
+	mk := func() *z.PreprocessSchema[int, string] {
+		return z.Preprocess(func(n int, c z.Ctx) (string, error) {
+			args = append(args, n)
+			return fmt.Sprintf("ORD-%04d", n), nil
+		}, z.String().Required().Min(5))
+	}
+	type order struct {
+		Code string
+		Qty  int
+	}
+	var o order
+	is := z.Struct(z.Schema{"code": mk(), "qty": z.Int().Required().GT(0)}).Parse(map[string]any{"qty": 3}, &o)
+	if len(args) != 0 {
+		argProblem = fmt.Sprintf("the key \"code\" is missing from the input, yet the Preprocess function (input type int) was called with %v", args)
+	}
+	if len(is) == 0 {
+		successProblem = fmt.Sprintf("Parse of {qty: 3} returned no issues although the Required string below Preprocess[int, string] has no input (destination %+v)", o)
+	}
+	args = nil
+	var codes []string
+	is = z.Slice(mk()).Parse([]any{7, nil}, &codes)
+	if len(args) != 1 || args[0] != 7 {
+		argProblem = fmt.Sprintf("elements [7, null]: the Preprocess function (input type int) was called with %v, want one call with 7", args)
+	}
+	if len(is) == 0 {
+		successProblem = fmt.Sprintf("Parse of [7, null] returned no issues although element [1] is null and its schema is Required (destination %q)", codes)
+	}
+	return
+}
+
 func dKeys(m z.ZogIssueMap) string {
 	var ks []string
 	for k := range m {
